@@ -255,7 +255,48 @@ def o_multi(a):
     return not bad, dict(violated=bad, worst_over_tolerance=worst, events=len(t))
 
 
-ORACLES = dict(table=o_table, push=o_push, component=o_component, file=o_file, periodic=o_periodic, multi=o_multi)
+def o_chandra(a):
+    """the Chandra-to-IXPE converter (xChandraROIModel + xChandraObservation on the photon list shipped with the tests) with a polarization that
+    changes with time: in each half of the run the mean event Stokes parameters are ⟨μ(E) P(t) cos 2PA(t)⟩ at the events' own times"""
+    import simdrive
+    from ixpeobssim import IXPEOBSSIM_TEST
+    from ixpeobssim.evt.gti import xSimpleGTIList
+    from ixpeobssim.irf import load_irf_set
+    from ixpeobssim.srcmodel.roi import xChandraObservation, xChandraROIModel
+    path = os.path.join(IXPEOBSSIM_TEST, 'data', 'cena.fits')
+    if not os.path.isfile(path):
+        return True, dict(skipped='no Chandra photon list at %s' % path)
+    T, start = a['T'], a['start']
+    half = start + 0.5 * T
+    pdf = lambda E, t, ra=None, dec=None: numpy.where(numpy.asarray(t) < half, a['pd'][0], a['pd'][1]) + 0. * E
+    paf = lambda E, t, ra=None, dec=None: numpy.where(numpy.asarray(t) < half, a['pa'][0], a['pa'][1]) + 0. * E
+    roi = xChandraROIModel(path, acis='I')
+    roi.add_source(xChandraObservation('Cen A', pdf, paf))
+    kwargs = simdrive.sim_kwargs(simdrive.config_path('toy_point_source.py'), 'unused.fits', gtis=None, start_met=start, duration=T, irfname=a['irf'])
+    kwargs['gti_list'] = xSimpleGTIList(start, start + T)
+    irf_set = load_irf_set(a['irf'], a['du'])
+    numpy.random.seed(a['seed'])
+    el = roi.rvs_event_list(irf_set, **kwargs)
+    t, phi, E = (numpy.array(el[k], dtype=float) for k in ('TIME', 'PHI', 'MC_ENERGY'))
+    bad, worst = [], 0.
+    for h in (0, 1):
+        k = (t < half) if h == 0 else (t >= half)
+        n = int(k.sum())
+        if n < 500:
+            bad.append('half %d: only %d events' % (h, n))
+            continue
+        m = irf_set.modf(E[k]) * pdf(E[k], t[k])
+        A = paf(E[k], t[k])
+        tol = 6.5 * math.sqrt(2. / n)
+        dq = abs(float(numpy.mean(2 * numpy.cos(2 * phi[k]))) - float(numpy.mean(m * numpy.cos(2 * A))))
+        du_ = abs(float(numpy.mean(2 * numpy.sin(2 * phi[k]))) - float(numpy.mean(m * numpy.sin(2 * A))))
+        worst = max(worst, dq / tol, du_ / tol)
+        if dq > tol or du_ > tol:
+            bad.append('%s half (%d events): mean Stokes off by %.4f, %.4f (tolerance %.4f)' % (['first', 'second'][h], n, dq, du_, tol))
+    return not bad, dict(violated=bad, worst_over_tolerance=worst, events=len(t))
+
+
+ORACLES = dict(chandra=o_chandra, table=o_table, push=o_push, component=o_component, file=o_file, periodic=o_periodic, multi=o_multi)
 
 
 def run_oracle(chk, name, a, nontrivial=True):
@@ -298,6 +339,8 @@ def explore(chk, budget=1):
         run_oracle(chk, 'component', dict(kind=kind, irf=names[0], du=int(g.integers(1, 4)), pd=float(g.uniform(0.2, 0.9)), pa=float(g.uniform(-1.5, 1.5)), n=200000,
                                           seed=int(g.integers(1, 10 ** 6))), nontrivial=kind != 'const')
     run_oracle(chk, 'periodic', dict(start=float(g.choice([0., 1.2e8])), T=20000., du=int(g.integers(1, 4)), seed=int(g.integers(1, 10 ** 6))))
+    run_oracle(chk, 'chandra', dict(T=2000000., start=float(g.choice([0., 1.5e8])), du=int(g.integers(1, 4)), seed=int(g.integers(1, 10 ** 6)), irf=names[0],
+                                    pd=[float(g.uniform(0.4, 0.9)), float(g.uniform(0.1, 0.4))], pa=[float(g.uniform(-1.5, 0.)), float(g.uniform(0., 1.5))]))
     run_oracle(chk, 'multi', dict(T=3000., du=int(g.integers(1, 4)), seed=int(g.integers(1, 10 ** 6))))
     run_oracle(chk, 'file', dict(du=int(g.integers(1, 4)), seed=int(g.integers(1, 10 ** 6)), duration=1500. if quick else 6000.))
     for irf in (names[1:2] if quick else names[1:]):
